@@ -3,3 +3,16 @@ ASSUMPTIONS = [
     'ranges: real interval for `in`, integer members for quantification and len/sum/prod/max/min)',
     'A-REAL in the proof tier: numbers are mathematical; the bounded tier runs Python floats',
 ]
+
+SEM_ASSUMPTIONS = [
+    'A-SEM-0: truth-value semantics specs/sem.py: two-valued; boolean connectives and quantifiers as in the property '
+    'statements; everything else abstract (atom/dom/bind uninterpreted); evaluation errors have no counterpart',
+    'A-SEM-1 (axiom atom_ignores_types, dom_ignores_types): stored type sets do not influence values',
+    'A-SEM-2 (axiom ev_frame, dom_frame): a value does not depend on a variable the expression does not mention',
+    'A-SEM-3 (axiom empty_test_sem): `len(d) = 0` holds exactly when the domain d has no members',
+    'assumed constructor contracts (checked natively only): HplQuantifier.__init__, HplFunctionCall.__init__',
+    'termination is not proved (partial correctness)',
+]
+SEM_LEMMAS = ['atom_ignores_types', 'dom_ignores_types', 'ev_frame', 'dom_frame', 'empty_test_sem',
+              'ev_ignores_types', 'equiv_types', 'equiv_sym', 'equiv_trans', 'all_cong', 'any_cong', 'all_and',
+              'all_const', 'all_neg', 'conj_snoc', 'conj_append', 'conj_unit', 'conj_last', 'conj_last_all']
